@@ -43,8 +43,9 @@ fn pick_params(rng: &mut Rng, subject: &str, big: bool) -> (Value, Value) {
 	match subject {
 		"Conv" => {
 			let n = if big { *rng.pick(&[40u64, 100, 254]) } else { rng.range(1, 9) as u64 };
-			let style = rng.below(4);
-			let w: Vec<f64> = (0..n)
+			let style = rng.below(5);
+			let zeros = rng.below(3); // 0: none; 1: zero weights at the ends; 2: scattered zeros
+			let mut w: Vec<f64> = (0..n)
 				.map(|i| match style {
 					0 => (i + 1) as f64,                     // WMA weights
 					1 => 1.0,                                // SMA weights
@@ -52,6 +53,18 @@ fn pick_params(rng: &mut Rng, subject: &str, big: bool) -> (Value, Value) {
 					_ => (rng.unit() * 4.0 - 1.0) * 0.7 + 1.5, // mixed sign, sum safely away from zero
 				})
 				.collect();
+			// zero weights (of either sign) are legitimate: the kernel keeps its length and alignment
+			if n >= 2 && zeros == 1 {
+				let k = (n as usize - 1).min(1 + rng.below(2) as usize);
+				for j in 0..k {
+					if rng.chance(0.6) { w[n as usize - 1 - j] = if rng.chance(0.5) { 0.0 } else { -0.0 }; }
+					if rng.chance(0.4) && j + 1 < n as usize - k { w[j] = 0.0; }
+				}
+				if w.iter().all(|x| *x == 0.0) { w[0] = 1.0; }
+			} else if n >= 3 && zeros == 2 {
+				let j = 1 + rng.below(n - 2) as usize;
+				w[j] = 0.0;
+			}
 			(json!(w.iter().map(|x| fx(*x)).collect::<Vec<_>>()), json!(w.iter().map(|x| bits(*x)).collect::<Vec<_>>()))
 		}
 		"TSI" => {
@@ -131,14 +144,41 @@ pub fn record_program(tw: &mut TraceWriter, rng: &mut Rng, subject: &str, big: b
 	tw.ev(json!({"ev":"new","subject":subject,"params":ptrace,"init":init.fx(),"res":res}));
 	let Ok(Ok(mut m)) = m else { return };
 	let n0 = pbuild[0].as_u64().unwrap_or(1);
+	// "echo" inputs: now and then the next input is exactly the value a plain EMA / SMA of the same length has reached on this
+	// stream, or the subject's own previous output (prices that sit exactly on an average: ties inside cascaded stages)
+	let mut shadows: Vec<Box<dyn DynM>> = Vec::new();
+	if kind == 's' && e == 0 && subject != "Conv" && !cfg!(feature = "value_type_f32") {
+		for sh in ["EMA", "SMA"] {
+			if let Ok(Ok(m)) = build(sh, &json!([n0.clamp(1, 200)]), &init) {
+				shadows.push(m);
+			}
+		}
+	}
+	let mut echo: Vec<f64> = Vec::new();
 	for i in 0..steps {
 		// Method::new prescribes the construction value as the first input
-		let x = if i == 0 { init.clone() } else { g.input(kind) };
+		let x = if i == 0 {
+			init.clone()
+		} else if !echo.is_empty() && rng.chance(0.08) {
+			let v = *rng.pick(&echo);
+			if v.is_finite() && (v == 0.0 || (v.abs() > 9.6e-7 && v.abs() < 1.0e12)) && !(positive_only(subject) && v <= 0.0) { In::S(v) } else { g.input(kind) }
+		} else {
+			g.input(kind)
+		};
+		echo.clear();
+		for m in shadows.iter_mut() {
+			if let Ok(Out::F(v)) = catch(|| m.next(&x)) {
+				echo.push(v);
+			}
+		}
 		let xs = scale_in(&x, e);
 		let y = catch(|| m.next(&xs));
 		match y {
 			Ok(y) => {
 				let y = unscale_out(&y, e, deg);
+				if let (Out::F(v), true) = (&y, !shadows.is_empty()) {
+					echo.push(*v);
+				}
 				tw.ev(json!({"ev":"next","x":x.fx(),"y":y.fx()}));
 				// peek returns the value most recently produced (Past and SWMA(1) are C09's known findings)
 				if subject != "Past" && !(subject == "SWMA" && n0 == 1) && i % 7 == 3 {
